@@ -26,6 +26,16 @@
 //! values on BOTH profiles (`both`) - execution.rs:122-160 and its copy pager.rs:146-186.
 //! `via=caching`: through a `CachingSession`.  `idems=<0110…>`: the idempotence flag of every single request (same
 //! text, different flags: what a caller passes must govern THAT call, whatever an earlier call cached).
+//! `cfg=none`: NOTHING is configured anywhere (needs pol=def cl=q): the built-in defaults of an untouched profile
+//! (`defaults::retry_policy()` = DefaultRetryPolicy, LOCAL_QUORUM; execution_profile.rs:180-199) decide.
+//! `idem=-` (and `-` inside `idems=`): `set_is_idempotent` is NOT called: `StatementConfig::default()` (not idempotent).
+//! `cfg=dprofile` / `cfg=dhandle` with `der=<op.op…|->`: the policy (consistency, timeout) is set on a BASE profile and
+//! the request runs under a profile DERIVED from it - `base.to_builder().<setters>.build()` as the session default
+//! (`dprofile`, through `ExecutionProfile::to_builder`) or as the statement's handle (`dhandle`, through
+//! `ExecutionProfileHandle::pointee_to_builder`; the session default is a decoy).  Setters: `lb` load-balancing
+//! policy, `ser` serial consistency, `sp` speculative execution (none), `cl` the consistency (the base then carries
+//! the decoy THREE), `tm` the profile-level request timeout (the base then carries a decoy of 50 ms), `pol` the retry
+//! policy (the base then carries the fall-through decoy).  Model: Model/RetryProfile.lean `derive`.
 //! kind `ctl`: the single-connection pager (`Connection::execute_iter` -> `SingleConnectionPagingExecutor`,
 //! pager.rs:535-600, used for the control connection's queries) through the hook `VerifConn`: its retry policy is
 //! hard-coded (fall-through): exactly one attempt per page, whatever the answer.
@@ -43,7 +53,9 @@
 //!  * every frame carries the consistency that the policy decided at the previous attempt of that request (page), else
 //!    the configured one;
 //!  * nothing is sent after an attempt was answered `ok` / after the request timeout fired, and then the caller gets
-//!    Ok / RequestTimeout.
+//!    Ok / RequestTimeout;
+//!  * "exactly the attempts the policy decided - no more": between a statement frame and its re-send (same page, the
+//!    previous answer not UNPREPARED) the CONFIGURED policy (the recording wrapper) decided a retry.
 use super::common::*;
 use crate::mockcluster::*;
 use crate::mocknode::{BatchStmt, Parsed, RESP_ERROR, RESP_RESULT, RESP_SUPPORTED};
@@ -89,6 +101,17 @@ fn cl_short(code: u16) -> String {
         0x000A => "localone".into(),
         c => format!("0x{:04x}", c),
     }
+}
+
+/// A random chain of builder setters for a derived profile (`der=`); mostly without the retry-policy setter.
+pub fn gen_der(rng: &mut Rng) -> String {
+    let k = rng.below(4) as usize;
+    let mut v: Vec<&str> = (0..k).map(|_| *rng.pick(&["lb", "ser", "sp", "cl", "cl", "tm", "tm"])).collect();
+    if rng.chance(1, 8) {
+        let at = rng.below(v.len() as u64 + 1) as usize;
+        v.insert(at, "pol");
+    }
+    if v.is_empty() { "-".to_owned() } else { v.join(".") }
 }
 
 pub fn generate(rng: &mut Rng, tier: Tier, emit: &mut dyn FnMut(String)) {
@@ -150,15 +173,28 @@ pub fn generate(rng: &mut Rng, tier: Tier, emit: &mut dyn FnMut(String)) {
             }
             scripts.push(s.join("."));
         }
+        let via = if i % 4 == 1 && !iter_kind { "caching" } else { "session" };
+        // where the policy is configured: on the statement (default); on a base profile from which the profile in force
+        // was DERIVED; nowhere (the built-in defaults decide)
+        let (pol, cl, cfg) = if via == "session" && i % 3 == 0 {
+            (pol, cl, format!(" cfg={} der={}", rng.pick(&["dprofile", "dhandle"]), gen_der(rng)))
+        } else if via == "session" && i % 8 == 5 {
+            ("def", "q", " cfg=none".to_owned())
+        } else {
+            (pol, cl, String::new())
+        };
+        // "not marked idempotent" = the setter was never called
+        let idem_s = if idem == 0 && rng.chance(1, 3) { "-".to_owned() } else { idem.to_string() };
         emit(format!(
-            "e2e retry n={} sh={} pol={} idem={} kind={} cl={} via={} pages=3 seed={} scripts={}",
+            "e2e retry n={} sh={} pol={} idem={} kind={} cl={} via={}{} pages=3 seed={} scripts={}",
             n,
             sh,
             pol,
-            idem,
+            idem_s,
             kind,
             cl,
-            if i % 4 == 1 && !iter_kind { "caching" } else { "session" },
+            via,
+            cfg,
             rng.below(1 << 32),
             scripts.join("/")
         ));
@@ -382,7 +418,11 @@ fn page_state(q: usize, j: usize) -> Vec<u8> {
 
 pub fn run(words: &[&str], ctx: &mut Ctx) -> String {
     let Some(p) = Params::parse(words) else { return "bad-case".into() };
-    let (Some(n), Some(sh), Some(idem), Some(seed)) = (p.num("n"), p.num_or("sh", 0), p.num_or("idem", 0), p.num_or("seed", 1)) else {
+    // `idem=-`: the flag is never set (StatementConfig::default())
+    let idem_unset = p.str("idem") == Some("-");
+    let (Some(n), Some(sh), Some(idem), Some(seed)) =
+        (p.num("n"), p.num_or("sh", 0), if idem_unset { Some(0) } else { p.num_or("idem", 0) }, p.num_or("seed", 1))
+    else {
         return "bad-case".into();
     };
     let (pol, kind, cl) = (p.str("pol").unwrap_or("def"), p.str("kind").unwrap_or("exec"), p.str("cl").unwrap_or("q"));
@@ -404,12 +444,24 @@ pub fn run(words: &[&str], ctx: &mut Ctx) -> String {
     let iter_kind = kind == "itere" || kind == "iterq" || kind == "ctl";
     let Some(pool) = p.num_or("pool", if kind == "sameconn" { 2 } else { 0 }) else { return "bad-case".into() };
     // per-request idempotence flags (default: `idem` for every request)
-    let idems: Option<Vec<bool>> = p.str("idems").map(|s| s.chars().map(|c| c == '1').collect());
-    if pool > 4 || p.str("idems").is_some_and(|s| s.chars().any(|c| c != '0' && c != '1')) {
+    let idems: Option<Vec<Option<bool>>> = p.str("idems").map(|s| s.chars().map(|c| if c == '-' { None } else { Some(c == '1') }).collect());
+    if pool > 4 || p.str("idems").is_some_and(|s| s.chars().any(|c| c != '0' && c != '1' && c != '-')) {
+        return "bad-case".into();
+    }
+    let derived = cfg == "dprofile" || cfg == "dhandle";
+    const DER_OPS: &[&str] = &["lb", "ser", "sp", "cl", "tm", "pol"];
+    let der: Vec<&str> = match p.str("der") {
+        None | Some("-") => Vec::new(),
+        Some(d) => d.split('.').collect(),
+    };
+    if der.iter().any(|o| !DER_OPS.contains(o)) || der.len() > 8 || (!derived && p.str("der").is_some()) {
+        return "bad-case".into();
+    }
+    if cfg == "none" && (pol != "def" || cl != "q" || tmo != 0 || kind == "sameconn") {
         return "bad-case".into();
     }
     if !["session", "caching"].contains(&via)
-        || !["stmt", "profile", "handle", "both"].contains(&cfg)
+        || !["stmt", "profile", "handle", "both", "none", "dprofile", "dhandle"].contains(&cfg)
         || !["stmt", "profile"].contains(&tmoat)
         || !(1..=6).contains(&pages)
         || tmo > 100_000
@@ -440,7 +492,9 @@ pub fn run(words: &[&str], ctx: &mut Ctx) -> String {
     if idems.as_ref().is_some_and(|v| v.len() != scripts.len()) {
         return "bad-case".into();
     }
-    let idem_of = |q: usize| -> bool { idems.as_ref().map(|v| v[q]).unwrap_or(idem != 0) };
+    // what the caller sets (None: no setter call), and what then holds (an untouched statement is not idempotent)
+    let idem_set_of = |q: usize| -> Option<bool> { idems.as_ref().map(|v| v[q]).unwrap_or(if idem_unset { None } else { Some(idem != 0) }) };
+    let idem_of = |q: usize| -> bool { idem_set_of(q).unwrap_or(false) };
     let shape = Shape { nodes: n, dcs: 1, racks: 1, shards: sh as u16, msb: 12, vnodes: 2, strat: Strat::Simple(n.min(2)), seed };
     let n_req = scripts.len();
     let log: EvLog = Arc::new(Mutex::new(vec![Vec::new(); n_req]));
@@ -553,9 +607,41 @@ pub fn run(words: &[&str], ctx: &mut Ctx) -> String {
             ExecutionProfile::builder().retry_policy(Arc::new(FallthroughRetryPolicy::new())).consistency(c).build().into_handle()
         };
         let tmo_profile = tmoat == "profile";
+        // a profile DERIVED from a base profile: base.to_builder().<setters>.build(); what a setter of the chain sets is
+        // a decoy on the base
+        let derived_profile = |through_handle: bool| {
+            let mut b = ExecutionProfile::builder();
+            b = b.retry_policy(if der.contains(&"pol") { Arc::new(FallthroughRetryPolicy::new()) as Arc<dyn RetryPolicy> } else { Arc::clone(&policy) });
+            if der.contains(&"cl") {
+                b = b.consistency(Consistency::Three);
+            } else if let Some(c) = consistency {
+                b = b.consistency(c);
+            }
+            if der.contains(&"tm") {
+                b = b.request_timeout(Some(Duration::from_millis(50)));
+            } else if tmo_profile && timeout.is_some() {
+                b = b.request_timeout(timeout);
+            }
+            let base = b.build();
+            let mut d = if through_handle { base.into_handle().pointee_to_builder() } else { base.to_builder() };
+            for op in &der {
+                d = match *op {
+                    "lb" => d.load_balancing_policy(Arc::new(scylla::policies::load_balancing::DefaultPolicy::default())),
+                    "ser" => d.serial_consistency(Some(scylla::statement::SerialConsistency::Serial)),
+                    "sp" => d.speculative_execution_policy(None),
+                    "cl" => d.consistency(consistency.unwrap_or(Consistency::LocalQuorum)),
+                    "tm" => d.request_timeout(if tmo_profile { timeout } else { None }),
+                    _ => d.retry_policy(Arc::clone(&policy)),
+                };
+            }
+            d.build().into_handle()
+        };
         let session_default = match cfg {
             "profile" => Some(real_profile(tmo_profile)),
-            "handle" | "both" => Some(decoy_profile(Consistency::Three)),
+            "dprofile" => Some(derived_profile(false)),
+            "handle" | "both" | "dhandle" => Some(decoy_profile(Consistency::Three)),
+            // nothing configured anywhere: the driver's own default profile
+            "none" => None,
             // cfg=stmt: only a profile-level timeout, if any
             _ if tmo_profile && timeout.is_some() => Some(ExecutionProfile::builder().request_timeout(timeout).build().into_handle()),
             _ => None,
@@ -563,6 +649,7 @@ pub fn run(words: &[&str], ctx: &mut Ctx) -> String {
         let stmt_handle = match cfg {
             "handle" => Some(real_profile(tmo_profile)),
             "both" => Some(decoy_profile(Consistency::Two)),
+            "dhandle" => Some(derived_profile(true)),
             _ => None,
         };
         let on_stmt = cfg == "stmt" || cfg == "both";
@@ -601,9 +688,11 @@ pub fn run(words: &[&str], ctx: &mut Ctx) -> String {
         if iter_kind {
             ps.set_page_size(2);
         }
-        let configured = |text: String, idem: bool| {
+        let configured = |text: String, idem: Option<bool>| {
             let mut st = Statement::new(text);
-            st.set_is_idempotent(idem);
+            if let Some(i) = idem {
+                st.set_is_idempotent(i);
+            }
             if on_stmt {
                 st.set_retry_policy(Some(Arc::clone(&policy)));
                 if let Some(c) = consistency {
@@ -663,9 +752,11 @@ pub fn run(words: &[&str], ctx: &mut Ctx) -> String {
                     return "e2e-skip pool-not-filled".to_owned();
                 }
             }
-            let idem_q = idem_of(q);
+            let idem_q = idem_set_of(q);
             let mut ps = ps.clone();
-            ps.set_is_idempotent(idem_q);
+            if let Some(i) = idem_q {
+                ps.set_is_idempotent(i);
+            }
             let configured = |text: String| configured(text, idem_q);
             *current.lock().unwrap() = Some(q);
             let res: Result<(), String> = match (kind, &caching) {
@@ -682,7 +773,9 @@ pub fn run(words: &[&str], ctx: &mut Ctx) -> String {
                 ("query", Some(cs)) => cs.execute_unpaged(configured(text_of(q)), ()).await.map(|_| ()).map_err(|e| error_kind(&e).to_owned()),
                 ("ctl", _) => {
                     let mut p = ctl_prepared.clone().unwrap();
-                    p.set_is_idempotent(idem_q);
+                    if let Some(i) = idem_q {
+                        p.set_is_idempotent(i);
+                    }
                     match ctl_conn.as_ref().unwrap().execute_iter_raw(p, scylla_cql::serialize::row::SerializedValues::new()).await {
                         Err(e) => Err(next_row_error_kind(&e).to_owned()),
                         Ok(pager) => match pager.rows_stream::<(Vec<u8>, i32)>() {
@@ -739,7 +832,9 @@ pub fn run(words: &[&str], ctx: &mut Ctx) -> String {
                     b.append_statement(ps.clone());
                     // unprepared WITH a value: prepare_batch prepares it on the connection in every attempt
                     b.append_statement(Statement::new("INSERT INTO ks.t (pk, v) VALUES (?, 1)"));
-                    b.set_is_idempotent(idem_q);
+                    if let Some(i) = idem_q {
+                        b.set_is_idempotent(i);
+                    }
                     if on_stmt {
                         b.set_retry_policy(Some(Arc::clone(&policy)));
                         if let Some(c) = consistency {
@@ -756,7 +851,9 @@ pub fn run(words: &[&str], ctx: &mut Ctx) -> String {
                     let mut b = Batch::new(BatchType::Logged);
                     b.append_statement(ps.clone());
                     b.append_statement(Statement::new("INSERT INTO ks.t (pk, v) VALUES (0x00, 1)"));
-                    b.set_is_idempotent(idem_q);
+                    if let Some(i) = idem_q {
+                        b.set_is_idempotent(i);
+                    }
                     if on_stmt {
                         b.set_retry_policy(Some(Arc::clone(&policy)));
                         if let Some(c) = consistency {
@@ -803,8 +900,9 @@ pub fn run(words: &[&str], ctx: &mut Ctx) -> String {
             let sv: Vec<&str> = frames.iter().map(|f| f.0).collect();
             let preps: Vec<&str> = log[q].iter().filter_map(|e| match e { Ev::Prep { o } => Some(o.as_str()), _ => None }).collect();
             let what = format!(
-                "request {} ({}, {}, policy {} configured on {}, cl {}, via {})",
-                q, if idem != 0 { "idempotent" } else { "NOT idempotent" }, kind, pol, cfg, cl, via
+                "request {} ({}, {}, policy {} configured on {}{}, cl {}, via {})",
+                q, if idem != 0 { "idempotent" } else { "NOT idempotent" }, kind, pol, cfg,
+                if derived { format!(" der={}", if der.is_empty() { "-".to_owned() } else { der.join(".") }) } else { String::new() }, cl, via
             );
             // (a) frame level: a frame asking for the same page as its predecessor is a RE-SEND of that page request
             if idem == 0 && kind != "sameconn" {
@@ -839,6 +937,34 @@ pub fn run(words: &[&str], ctx: &mut Ctx) -> String {
                     let attempts = if fv.is_empty() { 0 } else { 1 + (1..fv.len()).filter(|k| !unp(fv[k - 1])).count() };
                     if attempts > 1 {
                         ctx.fail(format!("e2e retry: {}: page {} of the single-connection pager was attempted {} times; served {:?}", what, pg, attempts, sv));
+                    }
+                }
+            }
+            // (f) "exactly the attempts the policy decided - no more": between a statement frame and its re-send the
+            //     CONFIGURED policy (recording wrapper) decided a retry.  (cfg=none: the driver's own default policy
+            //     object decides, nothing records; ctl: hard-coded policy, judged by (a'').)
+            if cfg != "none" && kind != "ctl" {
+                let mut prev: Option<(&str, usize)> = None;
+                let mut decided = false;
+                let mut k = 0usize;
+                for e in &log[q] {
+                    match e {
+                        Ev::Dec { retry, .. } => decided = decided || *retry,
+                        Ev::Frame { o, page, .. } => {
+                            k += 1;
+                            if let Some((po, pp)) = prev {
+                                if pp == *page && !unp(po) && !decided {
+                                    ctx.fail(format!(
+                                        "e2e retry: {} was sent again (frame {} for page {}, previous answer `{}`) although the configured retry policy decided no retry in between (a policy nobody configured governs the request); events {:?}",
+                                        what, k, page, po, log[q]
+                                    ));
+                                    break;
+                                }
+                            }
+                            prev = Some((o.as_str(), *page));
+                            decided = false;
+                        }
+                        Ev::Prep { .. } => {}
                     }
                 }
             }
